@@ -1,5 +1,5 @@
 """U5 -- encoder: encode_vlq_diff, serialize_mappings (src/encoder.rs)"""
-from .common import emit_struct, emit_method, import_method, emit_error_enum, impl_header
+from .common import emit_struct, emit_method, import_method, emit_error_enum, impl_header, emit_free_fn
 from .u6_root import prelude_types
 
 NAME = 'u5_encode'
@@ -45,30 +45,27 @@ def build(u):
     f = u.get_fn('src/vlq.rs', 'encode_vlq')
     u.import_fn(f, 'vlq::encode_vlq', 'u1_vlq.ctr', 'u1_vlq')
 
-    f = u.get_fn(E, 'encode_vlq_diff')
-    u.emit_fn(f, 'encoder::encode_vlq_diff')
+    emit_free_fn(u, E, 'encode_vlq_diff', 'encoder::encode_vlq_diff')
 
-    f = u.get_fn(E, 'serialize_mappings')
-    u.count('R-shim-call', f.rewrite(r'\.enumerate\(\)', '.verif_enumerate()', expect=1))
-    u.count('R-continue', f.flag_continues())
-    u.emit_fn(f, 'encoder::serialize_mappings')
+    def prep_sm(f):
+        u.count('R-shim-call', f.rewrite(r'\.enumerate\(\)', '.verif_enumerate()', expect=1))
+        u.count('R-continue', f.flag_continues())
+    emit_free_fn(u, E, 'serialize_mappings', 'encoder::serialize_mappings', prep=prep_sm)
 
     # R-unnest: the helper nested in encode_rmi is lifted to the top level (Verus has no nested fn items)
-    f = u.get_fn(E, 'encode_byte', outer='encode_rmi')
     u.count('R-unnest')
-    u.emit_fn(f, 'encoder::encode_rmi::encode_byte')
+    emit_free_fn(u, E, 'encode_byte', 'encoder::encode_rmi::encode_byte', outer='encode_rmi')
 
-    f = u.get_fn(E, 'encode_rmi')
-    # drop the nested fn item from the body (it is emitted above)
-    n = f.rewrite(r'(?s)\n    fn encode_byte\(b: u8\) -> u8 \{.*?\n    \}\n', '\n', expect=1)
-    u.count('R-shim-call', f.rewrite(r'\.view_bits::<Lsb0>\(\)', '.view_bits::<Lsb0>()'))
-    u.count('R-shim-call', f.rewrite(r'\.enumerate\(\)', '.verif_enumerate()', expect=1))
-    u.count('R-shim-call', f.rewrite(r'&([a-z_]+)\[\.\.(.+?)\];', r'\1.verif_prefix(\2);', expect=1))
-    u.emit_fn(f, 'encoder::encode_rmi')
+    def prep_er(f):
+        # drop the nested fn item from the body (it is emitted above)
+        f.rewrite(r'(?s)\n    fn encode_byte\(b: u8\) -> u8 \{.*?\n    \}\n', '\n', expect=1)
+        u.count('R-shim-call', f.rewrite(r'\.enumerate\(\)', '.verif_enumerate()', expect=1))
+        u.count('R-shim-call', f.rewrite(r'&([a-z_]+)\[\.\.(.+?)\];', r'\1.verif_prefix(\2);', expect=1))
+    emit_free_fn(u, E, 'encode_rmi', 'encoder::encode_rmi', prep=prep_er)
 
-    f = u.get_fn(E, 'serialize_range_mappings')
-    u.count('R-shim-call', f.rewrite(r'\.enumerate\(\)', '.verif_enumerate()', expect=1))
-    u.count('R-continue', f.guard_continues())
-    u.count('R-shim-call', f.rewrite(r'(?s)let ([a-z_]+) = ([a-z_]+)\.view_bits_mut::<Lsb0>\(\);\s*\1\.set\(([a-z_]+), (true|false)\);', r'verif_bytes_set_bit(&mut \2, \3, \4);', expect=1))
-    u.count('R-shim-call', f.rewrite(r'String::from_utf8\(([a-z_]+)\)\.expect\("[^"]*"\)', r'verif_string_from_utf8_ascii(\1)', expect=1))
-    u.emit_fn(f, 'encoder::serialize_range_mappings')
+    def prep_srm(f):
+        u.count('R-shim-call', f.rewrite(r'\.enumerate\(\)', '.verif_enumerate()', expect=1))
+        u.count('R-continue', f.guard_continues())
+        u.count('R-shim-call', f.rewrite(r'(?s)let ([a-z_]+) = ([a-z_]+)\.view_bits_mut::<Lsb0>\(\);\s*\1\.set\(([a-z_]+), (true|false)\);', r'verif_bytes_set_bit(&mut \2, \3, \4);', expect=1))
+        u.count('R-shim-call', f.rewrite(r'String::from_utf8\(([a-z_]+)\)\.expect\("[^"]*"\)', r'verif_string_from_utf8_ascii(\1)', expect=1))
+    emit_free_fn(u, E, 'serialize_range_mappings', 'encoder::serialize_range_mappings', prep=prep_srm)
